@@ -181,7 +181,27 @@ impl Property for C05 {
                 }
                 let xs = decoded[0].0;
                 let first_bytes = decoded[0].1.to_bytes();
-                let first_altered = !sharings[xs].is_genuine(&first_bytes);
+                // Genuineness is judged on the WIRE bytes the first share arrived as, read by the
+                // independent layout parser (canonical form: ignored trailing partial element dropped),
+                // not on what the decoder under test made of them: a decoder that silently normalises an
+                // altered encoding back to the genuine share must not hide the alteration.
+                let first_wire: &Vec<u8> = {
+                    let mut k = 0usize;
+                    let mut found = &bytes[0];
+                    for b in bytes.iter() {
+                        if matches!(guarded(|| Share::from_bytes(b)), Ok(Some(_))) {
+                            found = b;
+                            let _ = k;
+                            break;
+                        }
+                        k += 1;
+                    }
+                    found
+                };
+                let first_altered = match layout::parse_share(first_wire) {
+                    Some(p) => !sharings[xs].is_genuine(&layout::encode_share(&p)),
+                    None => true,
+                };
                 let shares: Vec<Share> = decoded.iter().map(|d| d.1.clone()).collect();
                 let outcome = if use_star_wrapper {
                     let star: Vec<sta_rs::Share> = shares.iter().filter_map(|s| sta_rs::Share::from_bytes(&s.to_bytes())).collect();
